@@ -482,8 +482,9 @@ def handlePooled (ws : List String) : Option String := do
   let es ← arg ws "evs"
   let evs ← if es = "-" then some [] else (es.splitOn ",").mapM fun x =>
     (match x.splitOn ":" with
-    | [t, b] => do
+    | [t, f, b] => do
       let tn ← t.toNat?
+      let fn ← f.toNat?
       let body ← (match b with
         | "ok" => some Pooled.Body.ok
         | "fail1" => some (Pooled.Body.fail true) | "fail0" => some (Pooled.Body.fail false)
@@ -491,9 +492,9 @@ def handlePooled (ws : List String) : Option String := do
         | "rej" => some Pooled.Body.rejected
         | "quitOk" => some Pooled.Body.quitOk
         | "quitFail1" => some (Pooled.Body.quitFail true) | "quitFail0" => some (Pooled.Body.quitFail false) | _ => none)
-      pure (tn, body)
+      pure (tn, fn, body)
     | _ => none)
-  let (st, us) := Pooled.run cfg {} evs
+  let (st, us) := Pooled.runT cfg {} evs
   let showO := fun (o : Option Nat) => match o with | some i => toString i | none => "-"
   let obs := ",".intercalate (us.map fun u => showO u.client ++ "/" ++ showO u.io)
   let free := ",".intercalate (st.free.map fun c => toString c.id ++ "/" ++ showO c.conn)
